@@ -16,10 +16,12 @@ import time
 
 ROOT = os.path.dirname(os.path.dirname(os.path.abspath(__file__)))
 REPO = os.environ.get("VERIF_REPO", "/repo")
-BUILD = os.path.join(ROOT, ".build")
-OUT = os.path.join(ROOT, "out")
+# VERIF_BUILD redirects every output (objects, binaries, out/, evidence/) so that a
+# run against a mutated copy of the sources (VERIF_REPO) never disturbs the real one
+BUILD = os.environ.get("VERIF_BUILD") or os.path.join(ROOT, ".build")
+OUT = os.path.join(BUILD, "out") if os.environ.get("VERIF_BUILD") else os.path.join(ROOT, "out")
 SPECS = os.path.join(ROOT, "specs")
-EVID = os.path.join(ROOT, "evidence")
+EVID = os.path.join(BUILD, "evidence") if os.environ.get("VERIF_BUILD") else os.path.join(ROOT, "evidence")
 NPROC = os.cpu_count() or 4
 
 DEFS = ["-DNDEBUG", "-DMP_DATE=20240320", '-DMP_SYSINFO="Linux x86_64"',
@@ -64,7 +66,8 @@ def sh(cmd, **kw):
 
 def _ccenv():
     env = dict(os.environ)
-    env["CCACHE_DIR"] = os.path.join(BUILD, "ccache")
+    env["CCACHE_DIR"] = os.path.join(ROOT, ".build", "ccache")
+    env["CCACHE_BASEDIR"] = REPO
     env["CCACHE_MAXSIZE"] = "4G"
     env["CCACHE_SLOPPINESS"] = "time_macros"
     env["CCACHE_NOHASHDIR"] = "1"
@@ -73,9 +76,12 @@ def _ccenv():
 
 def _compile_one(src, obj, flags):
     os.makedirs(os.path.dirname(obj), exist_ok=True)
-    cmd = ["ccache", "g++", "-std=c++17", "-w"] + flags + DEFS + INCS + ["-c", src, "-o", obj]
+    tmp = "%s.%d.tmp.o" % (obj, os.getpid())
+    cmd = ["ccache", "g++", "-std=c++17", "-w"] + flags + DEFS + INCS + ["-c", src, "-o", tmp]
     t0 = time.time()
     p = sh(cmd, env=_ccenv(), capture_output=True, text=True)
+    if p.returncode == 0:
+        os.replace(tmp, obj)      # atomic: concurrent checks may build the same object
     return src, p.returncode, p.stderr[-4000:], time.time() - t0
 
 
@@ -113,10 +119,12 @@ def build(target, srcs, flavor="asan", libs=(), extra_flags=(), harness_srcs=())
     have = open(stamp).read() if os.path.exists(stamp) and os.path.exists(exe) else ""
     if want != have:
         link_flags = [f for f in flags if f.startswith("-fsanitize") or f.startswith("-fno-sanitize")]
-        cmd = ["g++"] + link_flags + objs + ["-o", exe] + list(libs) + ["-ldl", "-lpthread"]
+        tmpexe = "%s.%d.tmp" % (exe, os.getpid())
+        cmd = ["g++"] + link_flags + objs + ["-o", tmpexe] + list(libs) + ["-ldl", "-lpthread"]
         p = sh(cmd, capture_output=True, text=True)
         if p.returncode != 0:
             raise Broken("link failed: %s\n%s" % (target, p.stderr[-4000:]))
+        os.replace(tmpexe, exe)
         open(stamp, "w").write(want)
     log("[build] %s (%s) %d TUs %.1fs" % (target, flavor, len(jobs), time.time() - t0))
     return exe
@@ -349,6 +357,28 @@ def run_harness(exe, args, timeout=600, env=None, stdin=None, cwd=None):
         return p.returncode, p.stdout, p.stderr
     except subprocess.TimeoutExpired as ex:
         return 124, "", "timeout"
+
+
+def sanitize_trace(path, rc=0, stderr=""):
+    """Make a harness-written ndjson file loadable whatever happened to the
+    harness: an unparsable (truncated) line becomes an explicit Crash record,
+    and a non-zero exit status appends one.  Returns the parsed lines."""
+    out = []
+    if os.path.exists(path):
+        for line in open(path, errors="replace"):
+            line = line.strip()
+            if not line:
+                continue
+            try:
+                out.append(json.loads(line))
+            except ValueError:
+                out.append({"e": "Crash", "what": "unparsable trace line", "text": line[:120]})
+    if rc != 0:
+        out.append({"e": "Crash", "what": "harness exit status %s" % rc, "stderr": (stderr or "")[-1500:]})
+    with open(path, "w") as f:
+        for e in out:
+            f.write(json.dumps(e) + "\n")
+    return out
 
 
 def main_wrapper(pid, fn):
